@@ -130,6 +130,10 @@ pub fn base_calls(b: &Base) -> Vec<Call> {
     c.push(Call::Filter(vs.clone()));
     c.push(Call::Filter(vec![vs[0]]));
     c.push(Call::Filter(vec![*vs.last().unwrap(), 1000]));
+    for at in 0..6 {
+        c.push(Call::FilterPanic(vs.clone(), at));
+        c.push(Call::FilterPanic(vec![vs[0]], at));
+    }
     for to in 0..6 {
         c.push(Call::Convert(to));
     }
@@ -146,7 +150,7 @@ pub fn base_calls(b: &Base) -> Vec<Call> {
     ];
     for algo in 0..9 {
         for s in &source_sets {
-            for consumer in 0..6 {
+            for consumer in 0..9 {
                 c.push(Call::Traverse(algo, s.clone(), consumer, vec![*vs.last().unwrap(), n], 3));
             }
         }
@@ -243,7 +247,7 @@ pub fn static_calls() -> Vec<Call> {
     for t in &trees {
         for s in [0, 1, t.len(), 1000] {
             for tgt in [0, 1, 1000] {
-                for mode in 0..4 {
+                for mode in 0..5 {
                     c.push(Call::PredTree(t.clone(), s, tgt, mode));
                 }
             }
@@ -449,7 +453,8 @@ pub fn program_from_raw(
                         40..=44 => Call::Pred(x),
                         45..=47 => Call::Rel(x, y),
                         48..=53 => Call::Op(x),
-                        54..=56 => Call::Filter(vs),
+                        54..=55 => Call::Filter(vs),
+                        56 => Call::FilterPanic(vs, (z % 8) as usize),
                         57..=59 => Call::Convert(x),
                         60 => Call::FromRows(x, list.iter().map(|&(r, c)| vec![varg(r, c, 3)]).collect()),
                         61 => {
@@ -542,6 +547,7 @@ fn call_name(c: &Call) -> String {
         Call::Rel(i, _) => ["is_subdigraph", "is_superdigraph", "is_spanning_subdigraph"][*i as usize % 3].into(),
         Call::Op(i) => ["complement", "converse", "union(self)", "union(converse)", "union(other order)"][*i as usize % 5].into(),
         Call::Filter(_) => "filter_vertices".into(),
+        Call::FilterPanic(..) => "filter_vertices(panicking predicate)".into(),
         Call::Convert(_) => "From<representation>".into(),
         Call::FromRows(..) => "From<rows>".into(),
         Call::FromArcs(..) => "From<arcs>".into(),
@@ -550,7 +556,7 @@ fn call_name(c: &Call) -> String {
         Call::Traverse(a, _, c, ..) => format!(
             "{}::{}",
             probe::ALGOS[*a as usize % 9],
-            ["collect", "distances", "predecessors", "shortest_path", "cycles", "next"][*c as usize % 6]
+            ["collect", "distances", "predecessors", "shortest_path", "cycles", "next", "clone+drop original", "step, clone, drop original", "shortest_path(panicking predicate)"][*c as usize % 9]
         ),
         Call::Bfm(_) => "BellmanFordMoore".into(),
         Call::Fw => "FloydWarshall".into(),
@@ -567,7 +573,7 @@ fn vertex_args(c: &Call) -> Vec<usize> {
     match c {
         Call::AddArc(u, v) | Call::AddArcWeighted(u, v, _) | Call::RemoveArc(u, v) | Call::Toggle(u, v) | Call::Q2(_, u, v) => vec![*u, *v],
         Call::Q1(_, u) | Call::Bfm(u) => vec![*u],
-        Call::HasWalk(w) | Call::Filter(w) => w.clone(),
+        Call::HasWalk(w) | Call::Filter(w) | Call::FilterPanic(w, _) => w.clone(),
         Call::Traverse(_, s, ..) => s.clone(),
         Call::PredTree(p, s, t, _) => {
             let mut v: Vec<usize> = p.iter().flatten().copied().collect();
@@ -586,7 +592,7 @@ fn vertex_args(c: &Call) -> Vec<usize> {
 fn reaches_unsafe(c: &Call) -> bool {
     !matches!(
         c,
-        Call::RemoveArc(..) | Call::Q2(..) | Call::Prng(..) | Call::Filter(_) | Call::Tarjan
+        Call::RemoveArc(..) | Call::Q2(..) | Call::Prng(..) | Call::Filter(_) | Call::FilterPanic(..) | Call::Tarjan
     )
 }
 
@@ -627,7 +633,7 @@ impl Prop for C13 {
     type Case = Case;
     const ID: &'static str = "C13";
     const NUM: u64 = 13;
-    const RULE: &'static str = "API programs = (representation, base digraph of order 1..8 incl. non-contiguous AdjacencyMap vertex sets, 1..6 calls) over every public entry point: mutators, every query, predicates and relations, complement/converse/union/filter_vertices, every From conversion and From<rows|arcs> (self-loops, out-of-range heads, empty, usize::MAX ids), every generator (orders 0..8, p incl. NaN / out of range; AdjacencyMatrix::empty at orders whose square overflows followed by add_arc/has_arc/toggle/remove_arc), Bfs/BfsDist/BfsPred/Dfs/DfsDist/DfsPred/Dijkstra/DijkstraDist/DijkstraPred with 0..3 sources and every consumer, BellmanFordMoore, FloydWarshall, DistanceMatrix (new, metrics, Index/IndexMut in and out of range, tampered pub fields), Tarjan, Johnson75, PredecessorTree (entries in and out of range), Xoshiro256StarStar; vertex arguments range over in-range ids, order, order+1, 1000, usize::MAX. Legs: systematic sweep (every entry point x every argument class x 21 base digraphs) and random programs, both in a child process built with AddressSanitizer + std unsafe-precondition checks; the sweep again in the plain release build with the counting-allocator leak meter. Outcome of every call must be return or unwinding panic; the digraph must stay structurally valid. A CPU-count segment repeats every thread-relevant call under 1, 2 and 3 CPUs on wider bases, including stars with rows of 255/256/257 out-neighbours; random programs run under a generated CPU count. Non-trivial = the program has a vertex argument outside V or a non-contiguous base, and a call that reaches an unsafe block; distinct = distinct serialised program.";
+    const RULE: &'static str = "API programs = (representation, base digraph of order 1..8 incl. non-contiguous AdjacencyMap vertex sets, 1..6 calls) over every public entry point: mutators, every query, predicates and relations, complement/converse/union/filter_vertices, every From conversion and From<rows|arcs> (self-loops, out-of-range heads, empty, usize::MAX ids), every generator (orders 0..8, p incl. NaN / out of range; AdjacencyMatrix::empty at orders whose square overflows followed by add_arc/has_arc/toggle/remove_arc), Bfs/BfsDist/BfsPred/Dfs/DfsDist/DfsPred/Dijkstra/DijkstraDist/DijkstraPred with 0..3 sources and every consumer (collect, distances, predecessors, shortest_path, cycles, stepping, a clone consumed after the original is dropped, user predicates that panic), BellmanFordMoore, FloydWarshall, DistanceMatrix (new, metrics, Index/IndexMut in and out of range, tampered pub fields), Tarjan, Johnson75, PredecessorTree (entries in and out of range), Xoshiro256StarStar; vertex arguments range over in-range ids, order, order+1, 1000, usize::MAX. Legs: systematic sweep (every entry point x every argument class x 21 base digraphs) and random programs, both in a child process built with AddressSanitizer + std unsafe-precondition checks; the sweep again in the plain release build with the counting-allocator leak meter. Outcome of every call must be return or unwinding panic; the digraph must stay structurally valid. A CPU-count segment repeats every thread-relevant call under 1, 2 and 3 CPUs on wider bases, including stars with rows of 255/256/257 out-neighbours; random programs run under a generated CPU count. Non-trivial = the program has a vertex argument outside V or a non-contiguous base, and a call that reaches an unsafe block; distinct = distinct serialised program.";
     const ASSUMPTIONS: &'static [&'static str] = &[
         "any unwinding Rust panic is accepted as 'the documented panic' (whether its text is documented cannot be judged mechanically)",
         "allocation-heavy arguments (huge orders whose square does not overflow) are excluded so that out-of-memory cannot masquerade as a finding; process-level OOM is exit 2",
